@@ -3,6 +3,7 @@ mod c04;
 mod c09;
 mod c02;
 mod c14;
+mod c16;
 mod cjs;
 mod cpair;
 mod csem;
@@ -34,6 +35,7 @@ fn check_by_id(id: &str) -> Option<Arc<dyn Check>> {
         "C13" => Arc::new(cpair::C13),
         "C14" => Arc::new(c14::C14),
         "C02" => Arc::new(c02::C02),
+        "C16" => Arc::new(c16::C16),
         "C15" => Arc::new(cpair::C15),
         "C12" => Arc::new(cjs::C12),
         _ => return None,
